@@ -10,7 +10,7 @@ from oracle import pauli, lc, groups, coupling
 from gen import members
 
 FORMATS_SIGNED = ["strings+sign", "strings-minimal", "matrices+phases", "matrices+phases-int64", "matrices+phases-bool",
-                  "matrices+phases-uint8", "matrices+phases-fortran", "matrices+phases-view-readonly"]
+                  "matrices+phases-uint8", "matrices+phases-fortran", "matrices+phases-view-readonly", "matrices+phases-mixed-dtypes"]
 FORMATS_PLUS = ["strings-nosign", "matrices-nophase", "matrices-nophase-int64"]
 
 
@@ -35,6 +35,8 @@ def make_stabilizer(n, gens, fmt, graph_gid=None, validate=False):
         dtype = np.int64 if fmt.endswith("int64") else (np.bool_ if fmt.endswith("bool") else (np.uint8 if fmt.endswith("uint8") else np.int8))
         R, S, ph = libif.paulis_to_matrices(gens, n, dtype=np.int8)
         R, S, ph = R.astype(dtype), S.astype(dtype), ph.astype(dtype)
+        if fmt.endswith("mixed-dtypes"):     # an int8 X matrix next to a float Z matrix and 64-bit signs
+            R, S, ph = R.astype(np.int8), S.astype(np.float64), ph.astype(np.int64)
         if fmt.endswith("fortran"):          # column-major memory layout
             R, S = np.asfortranarray(R), np.asfortranarray(S)
         elif fmt.endswith("view-readonly"):  # non-contiguous read-only views into larger arrays (e.g. slices of a table of many stabilizers)
@@ -93,8 +95,8 @@ def member_subjects(n, orbits, k, seed, tag):
     for o in orbits:
         for i in range(k):
             rng = fw.rng_for(tag, seed, n, o, i)
-            # generator presentation rotates over classes and members: densely mixed / lightly mixed and reordered / sparse graph-like / heaviest group elements
-            style = [True, "light", False, "heavy"][(o + i) % 4]
+            # generator presentation rotates over classes and members: densely mixed / lightly mixed and reordered / sparse graph-like / heaviest group elements / CSS form
+            style = [True, "light", False, "heavy", "css"][(o + i) % 5]
             gens, info = members.member(n, o, rng, signs="plus", mix=style)
             yield gens, rng, {"source": "class-member", "orbit": o, "member_graph": info["graph"], "index": i, "mixing": str(style)}
 
